@@ -11,7 +11,7 @@ import ast
 import itertools
 import re
 
-from sa.astutil import norm, walk_no_nested, guards_of, preceding_stmts, always_exits
+from sa.astutil import norm, walk_no_nested, guards_of, preceding_stmts, always_exits, subst
 from sa.c17_util import BV, Tok, TypeVal, Sim, Elaborator, ModelFault, Inst, Sig, signature, ClassRef
 from sa.errors import AnalysisError
 from sa.loader import Repo, Module
@@ -1027,11 +1027,14 @@ def _cl_check(r, m, classes):
         pulses, pulse_name = {}, None
         for fn in con.body:
             if isinstance(fn, ast.FunctionDef) and [norm(d) for d in fn.decorator_list] == ['update']:
+                local = {}       # plain locals of the block (occupancy = len( s.queue )), inlined into later expressions
                 for st in fn.body:
                     if isinstance(st, ast.Assign) and len(st.targets) == 1 and isinstance(st.targets[0], ast.Attribute) \
                             and norm(st.targets[0].value) == me:
-                        pulses[st.targets[0].attr] = st.value
+                        pulses[st.targets[0].attr] = subst(st.value, local)
                         pulse_name = fn.name
+                    elif isinstance(st, ast.Assign) and len(st.targets) == 1 and isinstance(st.targets[0], ast.Name):
+                        local[st.targets[0].id] = subst(st.value, local)
                     elif not (isinstance(st, ast.Expr) and isinstance(st.value, ast.Constant)):
                         raise AnalysisError(f"{cname}.construct.{fn.name}: statement outside the model: {norm(st)[:60]}")
         # -- method-order constraints
@@ -1161,41 +1164,79 @@ def _cl_check(r, m, classes):
             return isinstance(e, ast.Attribute) and e.attr == qattr and norm(e.value) == f.args.args[0].arg
 
         def is_msg(e, names):
-            """the message parameter, an alias of it, or a copy of either"""
+            """the message parameter, an alias of it, a copy of either, or a conditional expression of such values"""
             if isinstance(e, ast.Name):
                 return e.id in names
+            if isinstance(e, ast.IfExp):
+                return is_msg(e.body, names) and is_msg(e.orelse, names)
             if _is_copy(e) and not e.keywords:
                 if norm(e.func) in COPY_FUNCS:
                     return len(e.args) >= 1 and is_msg(e.args[0], names)
                 return is_msg(e.func.value, names)
             return False
 
+        MUTATORS = {'append', 'appendleft', 'pop', 'popleft', 'insert', 'extend', 'extendleft', 'remove', 'clear', 'rotate', 'reverse'}
+
         def run(f, L, arg=None):
-            """returns (list after, returned value)"""
-            body = [s for s in f.body if not (isinstance(s, ast.Expr) and isinstance(s.value, ast.Constant))]
+            """abstract execution of a method body on the list L (the deque, left end first): plain local assignments,
+            one insertion of the message / removal / indexed read; returns (list after, returned value)"""
             names = {f.args.args[1].arg} if len(f.args.args) == 2 else set()
-            while len(body) > 1 and isinstance(body[0], ast.Assign) and len(body[0].targets) == 1 \
-                    and isinstance(body[0].targets[0], ast.Name) and is_msg(body[0].value, names):
-                names.add(body[0].targets[0].id)     # m = clone_deepcopy( msg )
-                body = body[1:]
-            if len(body) != 1:
-                raise AnalysisError(f"{cname}.{f.name}: body outside the model")
-            st = body[0]
-            e = st.value if isinstance(st, (ast.Expr, ast.Return)) else None
-            if isinstance(e, ast.Call) and isinstance(e.func, ast.Attribute) and q_of(e.func.value, f) and not e.keywords:
-                op = e.func.attr
-                if op in ('append', 'appendleft') and len(e.args) == 1 and is_msg(e.args[0], names) and isinstance(st, ast.Expr):
-                    return ([arg] + L if op == 'appendleft' else L + [arg]), None
-                if op in ('pop', 'popleft') and not e.args and isinstance(st, ast.Return):
-                    return (L[:-1], L[-1]) if op == 'pop' else (L[1:], L[0])
-            if isinstance(e, ast.Subscript) and q_of(e.value, f) and isinstance(st, ast.Return):
-                try:
-                    i = ast.literal_eval(e.slice)
-                except Exception:
-                    i = None
-                if isinstance(i, int):
-                    return L, L[i]
-            raise AnalysisError(f"{cname}.{f.name}: statement outside the model: {norm(st)[:70]}")
+            env = {}
+            L = list(L)
+            ret = None
+
+            def touches_queue(e):
+                return any(isinstance(n, ast.Call) and isinstance(n.func, ast.Attribute) and n.func.attr in MUTATORS
+                           and q_of(n.func.value, f) for n in ast.walk(e))
+
+            def value(e):
+                nonlocal L
+                if isinstance(e, ast.Name) and e.id in env:
+                    return env[e.id]
+                if is_msg(e, names):
+                    return arg
+                if isinstance(e, ast.Call) and isinstance(e.func, ast.Attribute) and q_of(e.func.value, f) and not e.keywords:
+                    op = e.func.attr
+                    if op in ('append', 'appendleft') and len(e.args) == 1:
+                        v = value(e.args[0])
+                        if v is not arg or arg is None:
+                            raise AnalysisError(f"{cname}.{f.name}: {norm(e)} does not insert the message")
+                        L = [v] + L if op == 'appendleft' else L + [v]
+                        return None
+                    if op in ('pop', 'popleft') and not e.args:
+                        if not L:
+                            raise AnalysisError(f"{cname}.{f.name}: removal from an empty deque in the model")
+                        v = L[-1] if op == 'pop' else L[0]
+                        L = L[:-1] if op == 'pop' else L[1:]
+                        return v
+                    raise AnalysisError(f"{cname}.{f.name}: deque operation outside the model: {norm(e)[:70]}")
+                if isinstance(e, ast.Subscript) and q_of(e.value, f):
+                    try:
+                        i = ast.literal_eval(e.slice)
+                    except Exception:
+                        i = None
+                    if isinstance(i, int) and -len(L) <= i < len(L):
+                        return L[i]
+                    raise AnalysisError(f"{cname}.{f.name}: subscript outside the model: {norm(e)}")
+                if touches_queue(e):
+                    raise AnalysisError(f"{cname}.{f.name}: statement outside the model: {norm(e)[:70]}")
+                return ('opaque', norm(e))
+            for st in f.body:
+                if isinstance(st, ast.Expr) and isinstance(st.value, ast.Constant):
+                    continue
+                if isinstance(st, ast.Assign) and len(st.targets) == 1 and isinstance(st.targets[0], ast.Name):
+                    if is_msg(st.value, names):
+                        names.add(st.targets[0].id)
+                    else:
+                        env[st.targets[0].id] = value(st.value)
+                elif isinstance(st, ast.Expr):
+                    value(st.value)
+                elif isinstance(st, ast.Return):
+                    ret = value(st.value) if st.value is not None else None
+                    break
+                else:
+                    raise AnalysisError(f"{cname}.{f.name}: statement outside the model: {norm(st)[:70]}")
+            return L, ret
         L0, _ = run(meths['enq'], [], 'A')
         L1, _ = run(meths['enq'], L0, 'B')
         _, pk = run(meths['peek'], L1)
@@ -1420,6 +1461,8 @@ def _uncopied(e, tainted):
         return set()
     if isinstance(e, ast.Name):
         return {e.id} & tainted
+    if isinstance(e, ast.IfExp):
+        return _uncopied(e.body, tainted) | _uncopied(e.orelse, tainted)      # the test only inspects the message
     out = set()
     for ch in ast.iter_child_nodes(e):
         out |= _uncopied(ch, tainted)
@@ -2182,6 +2225,10 @@ MUTANTS = [
     _m('clone-deepcopy-returns-argument', CLONE_PY, "    return deepcopy(x)", "    return x", 'R-C17-copy'),
     _m('clone-deepcopy-deepcopy-aliased-to-copy', CLONE_PY, "from copy import deepcopy\n", "from copy import copy as deepcopy\n", 'R-C17-copy'),
     _m('clone-deepcopy-list-copy', CLONE_PY, "    return deepcopy(x)", "    return list(x)", 'R-C17-copy'),
+    _m('cl-enq-copies-only-structured-messages', CLQ, "    s.queue.appendleft( clone_deepcopy( msg ) )",
+       "    s.queue.appendleft( clone_deepcopy( msg ) if hasattr( msg, 'clone' ) else msg )", 'R-C17-copy', 'first'),
+    _m('cl-pulse-local-wrong-compare', CLQ, "      s.enq_rdy = len( s.queue ) < s.queue.maxlen\n      s.deq_rdy = len( s.queue ) > 0",
+       "      occupancy = len( s.queue )\n      s.enq_rdy = occupancy <= s.queue.maxlen\n      s.deq_rdy = occupancy > 0", 'R-C17-cl'),
     _m('cl-pipe-enq-no-copy', CLQ, "s.queue.appendleft( clone_deepcopy( msg ) )", "s.queue.appendleft( msg )", 'R-C17-copy', 'first'),
     dict(name='cl-bypass-enq-no-copy', rule='R-C17-copy', edits=[
         dict(file=CLQ, old="  @non_blocking( lambda s: len( s.queue ) < s.queue.maxlen )\n  def enq( s, msg ):\n    s.queue.appendleft( clone_deepcopy( msg ) )\n\n"
@@ -2330,6 +2377,11 @@ EQUIV = [
        "    s.add_constraints( peek_before_enq, deq_before_enq )"),
     _m('cl-constraints-starred-list', CLQ, "    s.add_constraints(\n      M( s.enq    ) < M( s.peek    ),\n      M( s.enq    ) < M( s.deq     ),\n    )",
        "    cs = [ M( s.enq ) < M( s.peek ), M( s.enq ) < M( s.deq ) ]\n    s.add_constraints( *cs )"),
+    _m('cl-pulse-occupancy-local', CLQ, "      s.enq_rdy = len( s.queue ) < s.queue.maxlen\n      s.deq_rdy = len( s.queue ) > 0",
+       "      occupancy = len( s.queue )\n      s.enq_rdy = occupancy < s.queue.maxlen\n      s.deq_rdy = occupancy > 0"),
+    _m('cl-deq-via-local', CLQ, "    return s.queue.pop()", "    head = s.queue.pop()\n    return head", None, 'first'),
+    _m('cl-enq-conditional-copy-both-arms', CLQ, "    s.queue.appendleft( clone_deepcopy( msg ) )",
+       "    s.queue.appendleft( clone_deepcopy( msg ) if hasattr( msg, 'clone' ) else msg.clone() )", None, 'first'),
     _m('cl-guard-ge-1', CLQ, "@non_blocking( lambda s: len( s.queue ) > 0 )\n  def deq", "@non_blocking( lambda s: len( s.queue ) >= 1 )\n  def deq",
        None, 'first'),
     _m('cl-constraint-as-gt', CLQ, "M( s.deq    ) < M( s.enq  )", "M( s.enq  ) > M( s.deq    )"),
